@@ -11,6 +11,7 @@ Fastq == {[recs |-> r, fastq |-> TRUE, wrap |-> w, cut |-> c] :
             r \in {x \in RecLists : \A i \in 1..Len(x) : x[i].seq # <<>>}, w \in {0, 2}, c \in 0..3}
 All == {s \in Fasta \cup Fastq : s.cut < NLines(s) \/ s.cut = 0}
 Dec == "all_members"
+DecFirst == "first_member"
 \* one line per scenario, for replay against the real reader (B4)
 ScenOut == mode = "done" => PrintT(<<"SCEN", ToJson(sc)>>)
 =============================================================================
